@@ -87,7 +87,12 @@ def worker_main(args):
         if args.replay:
             with open(args.replay) as f:
                 doc = json.load(f)
-            mod.evaluate(ctx, ctxmod.unhex(doc['case']))
+            rcase = ctxmod.unhex(doc['case'])
+            if isinstance(rcase, dict) and rcase.get('kind') == 'hammer' and getattr(mod, 'HAMMER', None) is not None:
+                from vlib import concurrent
+                concurrent.hammer(ctx, mod.HAMMER(ctx))        # a concurrency witness is replayed by hammering again
+            else:
+                mod.evaluate(ctx, rcase)
         else:
             # history independence: a sample of the cases that went through evaluate() is evaluated a second time
             # at the end of the run, in reverse order, after everything else has been called in between
@@ -120,6 +125,17 @@ def worker_main(args):
                         pass
                     ctx.note('violations appeared only when earlier cases were evaluated a second time at the end '
                              'of the run: the answer depends on the call history')
+            if sample and not ctx.violation_count and getattr(mod, 'CONCURRENT', None) is not None:
+                # the same sample once more, by several threads at the same time (vlib/concurrent.py)
+                from vlib import concurrent
+                before = ctx.violation_count
+                concurrent.concurrent_replay(mod, ctx, sample)
+                if ctx.violation_count > before:
+                    ctx.note('violations appeared only when several threads evaluated different cases at the same '
+                             'time: the library shares state between concurrent calls')
+            if not ctx.violation_count and getattr(mod, 'HAMMER', None) is not None and shard == 0:
+                from vlib import concurrent
+                concurrent.hammer(ctx, mod.HAMMER(ctx))
     except BaseException as e:  # noqa
         tb = traceback.format_exc()
         if _from_repo(e.__traceback__, root):
